@@ -1,4 +1,5 @@
 import IsoMdl.Props.C03
+import IsoMdl.Lemmas.Report
 /-
 C04 — Elements reported as issuer-authenticated are bound to the signed MSO.
 Holds since the `fix:` commit that added `issuer_data_authentication` (ISO 18013-5 9.1.2.4 digest
@@ -36,6 +37,74 @@ theorem C04_mso_signature_checked (f : Facts)
     (h : (handleResponse f).issuer = .valid) : f.issuerSigAccepts = true ∧ f.issuerPayloadAttached = true := by
   obtain ⟨_, _, _, _, _, _, _, _, _, hp, _, ha, _⟩ := (C03_issuer_valid_iff f).mp h
   exact ⟨ha, hp⟩
+
+section Report
+open IsoMdl.Report
+
+/-- WHAT IS REPORTED IS WHAT WAS DISCLOSED: every element the reader hands to the application
+(`ResponseAuthenticationOutcome.response`, model `Report.report`) stands under one of the two mDL
+namespaces, and its JSON value is the conversion of the value of a disclosed item of THAT namespace
+with THAT identifier — the items whose digests the issuer-data authentication above compares with
+the signed MSO.  Nothing is reported that is not such an item (no other namespace, no other
+document, no invented or defaulted value). -/
+theorem C04_reported_is_disclosed_item (nss : List (Bytes × List (Bytes × Cbor))) (ns : Bytes)
+    (obj : List (Bytes × RJson)) (id : Bytes) (j : RJson) (h : (ns, obj) ∈ report nss) (hj : (id, j) ∈ obj) :
+    (ns = coreNs ∨ ns = aamvaNs) ∧
+    ∃ items v, lookupNs ns nss = some items ∧ (id, v) ∈ items ∧ reportValue v = some j := by
+  have key : ∀ (n : Bytes) (items : List (Bytes × Cbor)), (id, j) ∈ namespaceObject items →
+      ∃ v, (id, v) ∈ items ∧ reportValue v = some j := by
+    intro n items hm
+    have := fold_sound items [] [] (by intro _ _ h; cases h) id j (by rw [← namespaceObject_eq]; exact hm)
+    simpa using this
+  unfold report at h
+  rcases List.mem_append.mp h with h | h
+  · cases hc : lookupNs coreNs nss with
+    | none => simp [hc] at h
+    | some items =>
+      simp only [hc, List.mem_singleton, Prod.mk.injEq] at h
+      obtain ⟨rfl, rfl⟩ := h
+      obtain ⟨v, hv1, hv2⟩ := key coreNs items hj
+      exact ⟨Or.inl rfl, items, v, hc, hv1, hv2⟩
+  · cases hc : lookupNs aamvaNs nss with
+    | none => simp [hc] at h
+    | some items =>
+      simp only [hc, List.mem_singleton, Prod.mk.injEq] at h
+      obtain ⟨rfl, rfl⟩ := h
+      obtain ⟨v, hv1, hv2⟩ := key aamvaNs items hj
+      exact ⟨Or.inr rfl, items, v, hc, hv1, hv2⟩
+
+/-- each identifier is reported at most once per namespace (keys strictly increasing) -/
+theorem C04_report_identifiers_unique (nss : List (Bytes × List (Bytes × Cbor))) (ns : Bytes)
+    (obj : List (Bytes × RJson)) (h : (ns, obj) ∈ report nss) : Sorted obj := by
+  have key : ∀ items : List (Bytes × Cbor), Sorted (namespaceObject items) := fun items => by
+    rw [namespaceObject_eq]; exact fold_sorted items [] trivial
+  unfold report at h
+  rcases List.mem_append.mp h with h | h
+  · cases hc : lookupNs coreNs nss with
+    | none => simp [hc] at h
+    | some items => simp only [hc, List.mem_singleton, Prod.mk.injEq] at h; rw [h.2]; exact key items
+  · cases hc : lookupNs aamvaNs nss with
+    | none => simp [hc] at h
+    | some items => simp only [hc, List.mem_singleton, Prod.mk.injEq] at h; rw [h.2]; exact key items
+
+/-- of several disclosed items with one identifier the LAST one with a JSON form is the one reported -/
+theorem C04_last_convertible_item_is_reported (pre post : List (Bytes × Cbor)) (id : Bytes) (v : Cbor) (j : RJson)
+    (hv : reportValue v = some j) (hpost : ∀ it ∈ post, it.1 = id → reportValue it.2 = none) :
+    (id, j) ∈ namespaceObject (pre ++ (id, v) :: post) := by
+  rw [namespaceObject_eq, List.foldl_append, List.foldl_cons]
+  apply fold_keeps post _ id j _ hpost
+  unfold foldStep
+  simp only [hv]
+  exact (mem_insertKey id j _ id j).mpr (Or.inl ⟨rfl, rfl⟩)
+
+/-- non-vacuity: a nested value, a tagged date, a byte string, a value without JSON form (left
+out), a repeated identifier (last wins), an item of another namespace (ignored) -/
+example : renderReport (report [(coreNs, [([98], .text [65]), ([97], .tag 1004 (.text [50])), ([99], .bytes [1, 2]),
+                            ([100], .float 4 0), ([98], .map [(.text [107], .uint 7), (.uint 1, .float 4 0)])]),
+                  ([120], [([97], .uint 1)])]) =
+    "6f72672e69736f2e31383031332e352e31={61:s32,62:{6b:n7},63:[n1,n2]}".toList := by decide +kernel
+
+end Report
 
 /-- non-vacuity: the former counterexamples are now Invalid with an issuer-authentication error -/
 example : (handleResponse { honest with digestsMatch := false }) = ⟨.invalid, .valid, [.issuerAuth], true⟩ := by decide
